@@ -6,7 +6,9 @@ Correspondence (tie D): the real CacheWrite/CacheRead (zip 0.6.6 + zstd) vs. the
   read     an entry + corruptions (every truncation point and all 255 substitutions at every offset for small
            entries, sampled for large); the real reader's verdict per member must equal the model's
   extract  real files -> from_objects -> entry -> one corruption -> the cache-hit path incl. extract_objects on disk
-The monitors evaluate the property itself on the REAL implementation's observations.
+The monitors evaluate the property itself on the REAL implementation's observations.  A failed member read is
+observed together with the CLASS of its error (DecompressionFailure = the class get_cached_or_compile turns into a
+miss, or any other type = the request fails); the model returns the miss class for every payload/CRC/zstd failure.
 """
 import os
 import subprocess
@@ -41,6 +43,11 @@ ASSUMPTIONS = [
     '(decidable, checked per case by the monitor; adversarial object contents can violate it)',
 ]
 TRUSTED = [
+    'the extract leg re-enacts the Cache::Hit arm of get_cached_or_compile decision for decision (open failure and any '
+    'get_stdout/get_stderr error = miss; an extract_objects error = miss iff it downcasts to DecompressionFailure, else the '
+    'request fails) on the REAL CacheRead errors; the arm itself is driven end to end by the thorough-tier e2e leg and by '
+    'property C09\'s request-level harness',
+
     'hook: CacheRead::verif_members (name, data offset, stored size, crc of every member as the real zip reader '
     'locates it) — used to slice the real zstd frames out of the real entry',
     'Run/C08.v instantiates compress/decompress by the finite frame table of the case (first equal frame wins; '
@@ -167,6 +174,26 @@ def gen_content(rng, cls):
     return [k.encode(), rng.below(1 << 30), n] if k != 'zeros' else [b'zeros', n]
 
 
+# stdout/stderr values where an "empty means absent" shortcut bites: whitespace only, NUL only, single bytes,
+# bytes that are not UTF-8, text framed by blanks
+STDIO_SPECIAL = [b'\n', b' ', b'\r\n', b'\t\n\n', b'\x0c', b'\t', b'\r', b'\x0b', b'  \n', b'\n\n\n\n', b'\x00',
+                 b'\x00\x00\x00', b'\x00\n', b'\xff', b'\x80', b'\xff\xfe', b'\xc3', b'\xc3\x28', b'\xed\xa0\x80', b'0', b'a',
+                 b'\x1b[0m', b' warning \n', b'\xef\xbb\xbf', b'\x85', b'\xa0', b'\xe2\x80\x83']
+
+
+def gen_stdio(rng, cls):
+    k = rng.weighted([('empty', 3), ('special', 3), ('byte', 2), ('blank', 1), ('content', 5)])
+    if k == 'empty':
+        return b''
+    if k == 'special':
+        return rng.choice(STDIO_SPECIAL)
+    if k == 'byte':
+        return bytes([rng.below(256)])
+    if k == 'blank':
+        return bytes(rng.choice(b' \t\n\r\x0c\x0b\x00') for _ in range(rng.range(1, 9)))
+    return gen_content(rng, 'tiny' if cls == 'tiny' else 'small')
+
+
 def gen_set(rng, cls, nmax=6, weird=True):
     """an artifact set: dict(objs=[[name, mode, content, optional, present]], so=content, se=content)"""
     used = set()
@@ -176,9 +203,18 @@ def gen_set(rng, cls, nmax=6, weird=True):
         c = cls if (cls != 'large' or i == 0) else 'small'
         mode = rng.choice(MODES)
         objs.append([gen_name(rng, used, weird), mode, gen_content(rng, c), 1 if rng.chance(1, 3) else 0, 1])
-    so = gen_content(rng, 'tiny' if cls == 'tiny' else 'small') if rng.chance(1, 2) else b''
-    se = gen_content(rng, 'tiny' if cls == 'tiny' else 'small') if rng.chance(2, 3) else b''
-    return dict(objs=objs, so=so, se=se)
+    return dict(objs=objs, so=gen_stdio(rng, cls), se=gen_stdio(rng, cls))
+
+
+def stdio_sets(values):
+    """minimal artifact sets around special stdout/stderr values (they come first: the first violation is small)"""
+    out = []
+    for c in values:
+        out.append(dict(objs=[[b'obj', 0o644, b'\x7fELF', 0, 1]], so=c, se=b''))
+        out.append(dict(objs=[[b'obj', 0o644, b'\x7fELF', 0, 1]], so=b'', se=c))
+    out.append(dict(objs=[[b'obj', 0o644, b'\x7fELF', 0, 1]], so=b'\n', se=b'\n'))
+    out.append(dict(objs=[], so=b' ', se=b'\x00'))
+    return out
 
 
 def mode_sx(m):
@@ -190,30 +226,45 @@ def prep_case(s):
 
 
 def prepare(sets):
-    """pack every set with the real writer; returns [(entry, members)] with members = [[name,start,len,crc]]"""
+    """pack every set with the real writer; returns [(entry, members)] with members = [[name,start,len,crc]];
+    (None, []) where the real writer failed — the callers must cope, a behaviour change is never a crash"""
     outs = run_harness('prep', [prep_case(s) for s in sets])
     res = []
     for o in outs:
-        if len(o) != 2 or not isinstance(o[0], (bytes, bytearray)):
-            raise RuntimeError('prep failed: %r' % (o,))
-        res.append((bytes(o[0]), o[1]))
+        if not isinstance(o, list) or len(o) != 2 or not isinstance(o[0], (bytes, bytearray)) or not isinstance(o[1], list):
+            res.append((None, []))
+        else:
+            res.append((bytes(o[0]), [m for m in o[1] if isinstance(m, list) and len(m) == 4]))
     return res
 
 
-def frames_of(s, entry, members):
-    """frame per present object (in order) + stdout + stderr ('' when not stored)"""
-    present = [o for o in s['objs'] if o[4]]
-    fr = [entry[m[1]:m[1] + m[2]] for m in members]
-    k = len(present)
-    of = fr[:k]
-    rest = fr[k:]
-    so_f = rest.pop(0) if content(s['so']) else b''
-    se_f = rest.pop(0) if content(s['se']) else b''
-    return of, so_f, se_f
+def content_frames(content_lists):
+    """the REAL zstd frame of every content.  Frames depend on the contents only, so each content is packed as an
+    OBJECT of a sibling entry with harmless names (put_object always stores a member): independent of the rule
+    by which the real writer decides whether a stdout/stderr is stored, and of odd object names."""
+    sib = [dict(objs=[[b'm%d' % i, 0o644, c, 0, 1] for i, c in enumerate(cs)], so=b'', se=b'') for cs in content_lists]
+    res = []
+    for cs, (e, ms) in zip(content_lists, prepare(sib)):
+        by = {bytes(m[0]): (m[1], m[2]) for m in ms} if e is not None else {}
+        fr = []
+        for i in range(len(cs)):
+            a = by.get(b'm%d' % i)
+            fr.append(e[a[0]:a[0] + a[1]] if a else b'')
+        res.append(fr)
+    return res
 
 
-def pack_case(s, entry, members):
-    of, so_f, se_f = frames_of(s, entry, members)
+def set_frames(sets):
+    """per set: (frames of the present objects in order, stdout frame, stderr frame); '' for empty stdout/stderr"""
+    lists = [[o[2] for o in s['objs'] if o[4]] + [s['so'], s['se']] for s in sets]
+    out = []
+    for s, fr in zip(sets, content_frames(lists)):
+        out.append((fr[:-2], fr[-2] if content(s['so']) else b'', fr[-1] if content(s['se']) else b''))
+    return out
+
+
+def pack_case(s, frames):
+    of, so_f, se_f = frames
     return [[[o[0], mode_sx(o[1]), o[2], f] for o, f in zip([o for o in s['objs'] if o[4]], of)],
             [s['so'], so_f], [s['se'], se_f]]
 
@@ -236,7 +287,9 @@ def stored_perm(mode):
 # ---------------------------------------------------------------------------------------------- pack leg
 def gen_pack(rng, tier):
     n = {'quick': (60, 70, 16, 4), 'thorough': (1500, 2500, 600, 40)}[tier]
-    sets = []
+    # first: every special stdout/stderr value around one small object (thorough: every single byte too)
+    sets = stdio_sets(STDIO_SPECIAL + ([bytes([b]) for b in range(256)] if tier == 'thorough' else
+                                       [bytes([b]) for b in (9, 10, 11, 12, 13, 32, 0, 1, 127, 128, 255)]))
     for cls, k in zip(('tiny', 'small', 'mid', 'large'), n):
         for _ in range(k):
             sets.append(gen_set(rng, cls))
@@ -253,11 +306,7 @@ def gen_pack(rng, tier):
     # known finding C08-K2: a 20-byte last name starting with "PK\6\7" puts a ZIP64 locator signature where zip looks
     sets.append(dict(objs=[[b'PK\x06\x07' + b'x' * 16, 0o644, b'data', 0, 1]], so=b'', se=b''))
     sets.append(dict(objs=[[b'PK\x06\x07' + b'x' * 16, 0o644, b'data', 0, 1]], so=b'', se=b'not last any more'))
-    # the frames depend on the contents only: slice them out of a sibling entry with harmless member names, so that
-    # the writer corner cases (over-long / duplicate names) still hand the model the real frames
-    sib = [dict(objs=[[b'm%d' % i] + o[1:] for i, o in enumerate(s['objs'])], so=s['so'], se=s['se']) for s in sets]
-    preps = prepare(sib)
-    return [pack_case(s, e, m) for s, (e, m) in zip(sets, preps)]
+    return [pack_case(st, fr) for st, fr in zip(sets, set_frames(sets))]
 
 
 def monitor_pack(case, out):
@@ -281,9 +330,11 @@ def monitor_pack(case, out):
     conts = [content(o[2]) for o in objs] + [content(so[0]), content(se[0])]
     toks = expected_tokens(conts)
     rs, so_v, se_v = out[1], out[2], out[3]
+    if not isinstance(rs, list) or len(rs) != len(objs):
+        return ['malformed implementation output (read-back of %d objects for %d)' % (len(rs) if isinstance(rs, list) else -1, len(objs))]
     for i, (o, r) in enumerate(zip(objs, rs)):
-        if not isinstance(r, list):
-            vs.append('round trip: object %r cannot be read back' % o[0][:40])
+        if not isinstance(r, list) or len(r) != 2:
+            vs.append('round trip: object %r cannot be read back (%r)' % (o[0][:40], r))
             continue
         mode, tok = r
         if tok != toks[i]:
@@ -291,9 +342,14 @@ def monitor_pack(case, out):
         want = stored_perm(None if o[1] == b'none' else o[1])
         if mode != want:
             vs.append('round trip: object %r mode %r, expected %o' % (o[0][:40], mode, want))
-    for nm, v, t in (('stdout', so_v, toks[-2]), ('stderr', se_v, toks[-1])):
-        if not isinstance(v, list) or v[0] != t:
-            vs.append('round trip: %s reads back differently' % nm)
+    for nm, v, t, c in (('stdout', so_v, toks[-2], conts[-2]), ('stderr', se_v, toks[-1], conts[-1])):
+        if not isinstance(v, list) or len(v) != 1:
+            vs.append('round trip: %s %r cannot be read back (%r)' % (nm, c[:24], v))
+        elif v[0] != t:
+            if v[0] == b'e':
+                vs.append('round trip: %s %r was packed as absent (or reads back empty): a hit returns EMPTY output' % (nm, c[:24]))
+            else:
+                vs.append('round trip: %s %r reads back differently' % (nm, c[:24]))
     return vs
 
 
@@ -334,29 +390,43 @@ def expand_specs(specs, entry):
 
 
 def read_case(s, entry, members, specs):
+    """what MUST come back is taken from the inputs, what is stored from the real reader's view of the real entry"""
     present = [o for o in s['objs'] if o[4]]
     reqs = [[o[0], o[3]] for o in s['objs']]
-    conts = [content(o[2]) for o in present]
+    want = [(o[0], content(o[2]), stored_perm(o[1])) for o in present]
     if content(s['so']):
-        conts.append(content(s['so']))
+        want.append((b'stdout', content(s['so']), 0o100644))
     if content(s['se']):
-        conts.append(content(s['se']))
-    toks = expected_tokens(conts)
-    frames = [[m[1], m[2], 1 if not c else 0] for m, c in zip(members, conts)]
-    meta = [[m[0], t, stored_perm(o[1]) if i < len(present) else 0o100644]
-            for i, (m, t, o) in enumerate(zip(members, toks, present + [None, None]))]
+        want.append((b'stderr', content(s['se']), 0o100644))
+    by_name = {}
+    for n, c, _ in want:
+        by_name.setdefault(n, c)
+    mconts = [by_name.get(bytes(m[0])) for m in members]          # None: a member the inputs do not explain
+    frames = [[m[1], m[2], 1 if c == b'' else 0] for m, c in zip(members, mconts)]
+    meta = []
+    for n, c, perm in want:
+        if not c:
+            t = b'e'
+        else:
+            t = next((k for k, mc in enumerate(mconts) if mc == c), b'unstored')
+        meta.append([n, t, perm, c[:24]])
     return [entry, reqs, frames, specs, meta]
 
 
 def sample_specs(rng, entry, members, n_sub, n_trunc):
     L = len(entry)
     specs = [[b'none']]
+    if L == 0:
+        return specs
+    members = [m for m in members if isinstance(m[1], int) and isinstance(m[2], int) and 0 <= m[1] <= m[1] + m[2] <= L]
     hdr = []      # offsets outside the payloads
     pos = 0
     for m in members:
         hdr += list(range(pos, m[1]))
-        pos = m[1] + m[2]
+        pos = max(pos, m[1] + m[2])
     hdr += list(range(pos, L))
+    if not hdr:
+        hdr = list(range(L))
     for _ in range(n_sub):
         if rng.chance(3, 4) or not members:
             j = rng.choice(hdr)
@@ -405,9 +475,11 @@ def gen_read(rng, tier):
     sets[1] = dict(objs=[[b'ab', 0o755, b'REQ', 0, 1], [b'aa', 0o600, b'opt', 1, 1]], so=b'o', se=b'')
     # a non-ASCII name (UTF-8 flag, CP437 / lossy decoding paths of the reader)
     sets[2] = dict(objs=[['é.o'.encode(), 0o4755, b'\x00\xff', 0, 1]], so=b'', se=b'\xc3')
+    # output that is nothing but white space / a NUL byte
+    sets[3] = dict(objs=[[b'o', 0o644, b'x', 0, 1]], so=b'\n', se=b'\x00')
     preps = prepare(sets)
     for s, (e, m) in zip(sets, preps):
-        if len(e) > 420 and tier == 'quick':
+        if e is None or (len(e) > 420 and tier == 'quick'):
             continue
         cases.append(read_case(s, e, m, [[b'none'], [b'truncall']]))
         step = 8
@@ -423,8 +495,11 @@ def gen_read(rng, tier):
             if rng.chance(1, 4):
                 s['objs'].append([b'missing-opt', 0o644, b'', 1, 0])
             sets.append(s)
+    sets = stdio_sets(STDIO_SPECIAL) + sets
     preps = prepare(sets)
     for s, (e, m) in zip(sets, preps):
+        if e is None:
+            continue
         big = len(e) > 200000
         cases.append(read_case(s, e, m, sample_specs(rng, e, m, 8 if big else 60, 3 if big else 20)))
     return cases
@@ -439,19 +514,29 @@ def judge(reqs, meta, so_v, se_v, rs, corrupted, in_dir=True):
     vs = []
     st = []
     exp = {m[0]: (m[1], m[2]) for m in meta}
+    preview = {m[0]: (m[3] if len(m) > 3 else b'') for m in meta}
     if 2 in [so_v, se_v] + [r for r in rs]:
         return ['the reader panicked'], ['verdict=panic']
-    if so_v == 0 or se_v == 0:
-        return [], ['verdict=miss-stdio']
+    if so_v in (0, 3) or se_v in (0, 3):
+        # get_cached_or_compile turns ANY error of get_stdout/get_stderr into a miss
+        return [], ['verdict=miss-stdio' + ('-generic-error' if 3 in (so_v, se_v) else '')]
     files = []
     for (name, optional), r in zip(reqs, rs):
+        if r == 3:
+            # extract_objects would return this error; it is not a DecompressionFailure, so the caller propagates it
+            return ['object %r: the failure is reported as a generic error, not as DecompressionFailure: '
+                    'get_cached_or_compile fails the request instead of treating the entry as a miss' % name[:40]], ['verdict=fatal']
         if r in (0, 1):
             # the fixed extract_objects skips an optional object only when the directory has no such member (1)
             if optional and r == 1:
                 files.append((name, None))
                 continue
             return [], ['verdict=miss-object']
+        if not isinstance(r, list) or len(r) != 2:
+            return ['malformed verdict %r for object %r' % (r, name[:40])], ['verdict=malformed']
         files.append((name, r))
+    if not (isinstance(so_v, list) and len(so_v) == 1 and isinstance(se_v, list) and len(se_v) == 1):
+        return ['malformed stdout/stderr verdicts %r %r' % (so_v, se_v)], ['verdict=malformed']
     # the entry was accepted: a hit
     st.append('verdict=hit')
     optional_of = {name: optional for name, optional in reqs}
@@ -479,7 +564,9 @@ def judge(reqs, meta, so_v, se_v, rs, corrupted, in_dir=True):
     for nm, v in ((b'stdout', so_v), (b'stderr', se_v)):
         want = exp[nm][0] if nm in exp else b'e'
         if v[0] != want:
-            if v[0] == b'e':
+            if want == b'unstored' and v[0] == b'e':
+                vs.append('round trip: %s %r was packed as absent: a hit returns EMPTY output' % (nm.decode(), preview.get(nm, b'')))
+            elif v[0] == b'e':
                 vs.append(soft(nm) + 'hit, but the stored %s was silently replaced by empty output' % nm.decode())
             else:
                 vs.append(soft(nm) + 'hit with DIFFERENT %s' % nm.decode())
@@ -488,6 +575,9 @@ def judge(reqs, meta, so_v, se_v, rs, corrupted, in_dir=True):
 
 def monitor_read(case, out):
     entry, reqs, frames, specs, meta = case
+    for m in meta:
+        if m[1] == b'unstored' and m[0] not in (b'stdout', b'stderr'):
+            return ['round trip: the real writer did not store object %r' % m[0][:40]]
     if out == [b'frame_table_mismatch']:
         return ['frame table of the case does not match what the real reader sees']
     descs = list(expand_specs(specs, entry))
@@ -504,6 +594,9 @@ def monitor_read(case, out):
             continue
         if v == 2:
             vs.append('%s: the reader panicked while opening' % (d,))
+            continue
+        if not isinstance(v, list) or len(v) != 2 + len(reqs):
+            vs.append('%s: malformed verdict %r' % (d, v))
             continue
         w, _ = judge(reqs, meta, v[0], v[1], v[2:], corrupted, in_dir)
         for x in w:
@@ -546,6 +639,8 @@ def stats_read(case, out):
             k = 'refused'
         elif v == 2:
             k = 'panic'
+        elif not isinstance(v, list) or len(v) != 2 + len(reqs):
+            k = 'malformed'
         else:
             corrupted = d[0] != 'none'
             k = ','.join(judge(reqs, meta, v[0], v[1], v[2:], corrupted)[1]) or 'hit'
@@ -611,6 +706,8 @@ def gen_craft(rng, tier):
     comments, multi-disk fields, duplicate names, encrypted / unsupported members)"""
     s = dict(objs=[[b'obj', 0o644, b'\x7fELF', 0, 1], [b'dwo', 0o644, b'dw', 0, 1]], so=b'', se=b'warn')
     (e, ms), = prepare([s])
+    if e is None or len(ms) != 3:
+        return []
     f = [e[m[1]:m[1] + m[2]] for m in ms]
     base = lambda: [dict(name=b'obj', data=f[0]), dict(name=b'dwo', data=f[1]), dict(name=b'stderr', data=f[2])]
     aes = lambda vv=1, vid=0x4541, mode=1, cm=0, ln=7: struct.pack('<HHHHBH', 0x9901, ln, vv, vid, mode, cm)
@@ -707,19 +804,19 @@ def gen_craft(rng, tier):
 
 
 # ---------------------------------------------------------------------------------------------- extract leg
-def extract_case(s, entry, members, spec):
-    of, so_f, se_f = frames_of(s, entry, members)
+def extract_case(s, frames, spec):
+    of, so_f, se_f = frames
     it = iter(of)
     objs = []
     for o in s['objs']:
-        f = next(it) if o[4] else b''
+        f = next(it, b'') if o[4] else b''
         objs.append([o[0], o[1] if o[1] is not None else 0o644, o[2] if o[4] else b'', f, o[3], o[4]])
     return [objs, [s['so'], so_f], [s['se'], se_f], spec]
 
 
 def gen_extract(rng, tier):
     n = {'quick': (60, 60, 10, 2), 'thorough': (1500, 1500, 300, 20)}[tier]
-    sets = []
+    sets = stdio_sets(STDIO_SPECIAL[:12] + [b'\x00', b'\xff\xfe'])
     for cls, k in zip(('tiny', 'small', 'mid', 'large'), n):
         for _ in range(k):
             s = gen_set(rng, cls, nmax=5)
@@ -732,15 +829,13 @@ def gen_extract(rng, tier):
             sets.append(s)
     preps = prepare(sets)
     cases = []
-    for s, (e, m) in zip(sets, preps):
+    for s, fr, (e, m) in zip(sets, set_frames(sets), preps):
         specs = [[b'none']]
-        if any(o[4] == 0 and o[3] == 0 for o in s['objs']):
-            specs = [[b'none']]
-        else:
+        if e is not None and not any(o[4] == 0 and o[3] == 0 for o in s['objs']):
             for sp in sample_specs(rng, e, m, 3, 1)[1:]:
                 specs.append(sp)
         for sp in specs:
-            cases.append(extract_case(s, e, m, sp))
+            cases.append(extract_case(s, fr, sp))
     return cases
 
 
@@ -756,11 +851,17 @@ def monitor_extract(case, out):
         return ['an entry was written although a required output is missing']
     if out[0] == b'panic':
         return ['the cache-hit path panicked']
+    if out[0] == b'fatal':
+        return [('damaged entry (%s): ' % sx.dumps(spec) if corrupted else 'intact entry: ')
+                + 'extract_objects fails with an error that is not a DecompressionFailure: '
+                  'get_cached_or_compile fails the request instead of treating the entry as a miss']
     if out[0] == b'miss':
         return [] if corrupted else ['round trip: the intact entry is a miss']
     conts = [content(o[2]) for o in objs] + [content(so[0]), content(se[0])]
     toks = expected_tokens(conts)
     vs = []
+    if out[0] != b'hit' or len(out) != 4 or not isinstance(out[3], list) or len(out[3]) != len(objs):
+        return ['malformed implementation output %r' % (out[:1],)]
     _, so_t, se_t, fs = out
     cd_start = sum(30 + len(o[0]) + len(o[3]) for o in objs if o[5]) + sum(36 + len(x[1]) for x in (so, se) if x[1])
     in_dir = spec[0] == b'sub' and spec[1] >= cd_start
@@ -778,14 +879,19 @@ def monitor_extract(case, out):
             else:
                 vs.append('hit without the required object %r' % o[0][:40])
             continue
+        if not isinstance(f, list) or len(f) != 2:
+            vs.append('malformed file observation %r' % (f,))
+            continue
         mode, tok = f
         if tok != toks[i]:
             vs.append(soft(o[4]) + 'hit restores %r with DIFFERENT CONTENTS' % o[0][:40])
         elif mode != (o[1] & 0o777) and not corrupted:
             vs.append('round trip: %r restored with mode %o, stored from a file with mode %o' % (o[0][:40], mode, o[1]))
-    for nm, v, t in (('stdout', so_t, toks[-2]), ('stderr', se_t, toks[-1])):
+    for nm, v, t, c in (('stdout', so_t, toks[-2], conts[-2]), ('stderr', se_t, toks[-1], conts[-1])):
         if v != t:
-            if v == b'e':
+            if v == b'e' and not corrupted:
+                vs.append('round trip: %s %r was packed as absent (or reads back empty): a hit returns EMPTY output' % (nm, c[:24]))
+            elif v == b'e':
                 vs.append(soft(True) + 'hit, but the stored %s was silently replaced by empty output' % nm)
             else:
                 vs.append(soft(True) + 'hit with DIFFERENT %s' % nm)
@@ -815,6 +921,31 @@ def shrink_read(case):
                 yield [entry, reqs, frames, [[b'trunc', d[1]]], meta]
             else:
                 yield [entry, reqs, frames, [[b'sub', d[1], d[2]]], meta]
+
+
+def shrink_pack(case):
+    objs, so, se = case[0], case[1], case[2]
+    rest = case[3:]
+    for i in range(len(objs)):
+        yield [objs[:i] + objs[i + 1:], so, se] + rest
+    if content(so[0]):
+        yield [objs, [b'', b''], se] + rest
+    if content(se[0]):
+        yield [objs, so, [b'', b'']] + rest
+
+
+def safe(f, what):
+    """a monitor / stats function never raises: output it cannot interpret is reported, not crashed on"""
+    def g(case, out):
+        try:
+            return f(case, out)
+        except Exception as ex:          # noqa
+            if what == 'monitor':
+                return ['the implementation output cannot be interpreted (%s: %s): %r' % (type(ex).__name__, ex, str(out)[:200])]
+            if what == 'stats':
+                return ['uninterpretable-output']
+            return True
+    return g
 
 
 # ---------------------------------------------------------------------------------------------- e2e (thorough tier)
@@ -898,31 +1029,44 @@ def check(tier, seed, replay=None):
     pipeline.load_known = load_known
     try:
         return pipeline.standard_check(sys.modules[__name__], tier, seed, replay)
+    except Exception:            # noqa — a check never ends in a traceback: it is a broken obligation, reported as such
+        import time
+        import traceback
+        tb = traceback.format_exc()
+        os.makedirs(os.path.join(pipeline.VERIF, 'replays'), exist_ok=True)
+        path = os.path.join(pipeline.VERIF, 'replays', '%s-%s-%d.json' % (ID, tier, int(time.time())))
+        json.dump({'property': ID, 'kind': 'no-failing-input-found',
+                   'no_longer_checks': ['the check itself could not process what the implementation produced: ' + tb[-3000:]],
+                   'seed': seed}, open(path, 'w'), indent=1)
+        print('VIOLATION property=%s replay=%s no-failing-input-found' % (ID, path))
+        return 1
     finally:
         pipeline.load_known = orig
 
 
 def legs(tier):
     return [
-        Leg('pack', gen_pack, monitor=monitor_pack, stats=stats_pack, classify=classify,
+        Leg('pack', gen_pack, monitor=safe(monitor_pack, 'monitor'), stats=safe(stats_pack, 'stats'), classify=classify,
+            shrink=shrink_pack,
             rule='artifact sets (1-6 members; names ASCII / UTF-8 / up to 1000 bytes; contents 0 B .. 1 MiB literal, text, '
-                 'random, zeros; modes incl. none, 000, setuid/setgid/sticky, file-type bits; stdout/stderr empty or not) '
+                 'random, zeros; modes incl. none, 000, setuid/setgid/sticky, file-type bits; stdout/stderr empty, whitespace-only, NUL-only, single bytes, non-UTF-8, or ordinary; the special stdout/stderr values come first around one 4-byte object) '
                  '+ writer corner cases (duplicate names, names stdout/stderr, 65535/65540-byte names, no members); '
                  'compared: entry bytes (byte-identical; above 150000 bytes headers byte-identical and payloads by length+CRC) and '
                  'the read-back of every member; distinct by full case text'),
-        Leg('read', gen_read, monitor=monitor_read, stats=stats_read, classify=classify, shrink=shrink_read,
-            nontrivial=nontrivial_read,
+        Leg('read', gen_read, monitor=safe(monitor_read, 'monitor'), stats=safe(stats_read, 'stats'), classify=classify,
+            shrink=shrink_read, nontrivial=safe(nontrivial_read, 'nontrivial'),
             rule='entries <= 420 bytes: EVERY truncation point and all 255 substitutions at EVERY offset (8 offsets per case); '
                  'larger entries: 60 substitutions (3/4 in headers/directory, bit flips and random values) + 20 truncations '
                  'each (8 + 3 above 200 kB); one evaluation = one case line (up to 2040 corrupted reads); non-trivial = at least one corrupted '
                  'variant is still opened by the real reader'),
         Leg('craft', gen_craft, model_leg='read', impl_args=['read'],
-            stats=lambda case, out: ['craft=' + case[4][0].decode() + ':' + ('refused' if out and out[0] == 0 else 'panic' if out and (out[0] == 2 or (isinstance(out[0], list) and 2 in out[0])) else 'opened')],
+            stats=safe(lambda case, out: ['craft=' + case[4][0].decode() + ':' + ('refused' if out and out[0] == 0 else 'panic' if out and (out[0] == 2 or (isinstance(out[0], list) and 2 in out[0])) else 'opened')], 'stats'),
             rule='hand-built zip files no sccache writes (ZIP64 locator/record variants, extra-field parser incl. the AES '
                  'record, DOS attributes, archive offset, comments, multi-disk fields, duplicate and non-UTF-8 names, '
                  'encrypted / unsupported members): only model = implementation is checked, they validate the rarely '
                  'reached branches of the reader model'),
-        Leg('extract', gen_extract, monitor=monitor_extract, stats=stats_extract, classify=classify,
+        Leg('extract', gen_extract, monitor=safe(monitor_extract, 'monitor'), stats=safe(stats_extract, 'stats'), classify=classify,
+            shrink=shrink_pack,
             rule='real files (chmod incl. setuid, 000) -> CacheWrite::from_objects (optional / missing outputs) -> '
                  'put_stdout/put_stderr -> finish -> one corruption or none -> CacheRead::from, get_stdout, get_stderr, '
                  'extract_objects into a directory -> stat + compare'),
